@@ -189,3 +189,38 @@ func H_C17_options() {
 	}
 	verif.Reach("end")
 }
+
+// H_C17_option_sequence: what a query text means depends on the options of
+// that call only, not on the options an earlier call passed with the same
+// text: every ordered pair of option sets on one text that both rewrites touch.
+func H_C17_option_sequence() {
+	first := verif.Choose("first-options", 4)
+	second := verif.Choose("second-options", 4)
+	x := verif.F64("a")
+	verif.Assume(x == x)
+	doc := func() Map { return Map{"t": []any{Map{"a": x}}} }
+	text := `SELECT "a" AS n, [1, [2, 3]] AS p FROM t`
+	opts := func(k int) []QueryOption {
+		var o []QueryOption
+		if k&1 != 0 {
+			o = append(o, PostgresEscapingDialect())
+		}
+		if k&2 != 0 {
+			o = append(o, IdomaticArrays())
+		}
+		return o
+	}
+	runQueryQuiet(doc(), text, opts(first)...)
+	got, err := runQueryQuiet(doc(), text, opts(second)...)
+	arr := []any{float64(1), []any{float64(2), float64(3)}}
+	switch second {
+	case 0, 1:
+		verif.Assert(err != nil, "brackets-need-the-option")
+	case 2:
+		// without the dialect option "a" is a string literal
+		verif.Assert(err == nil && verif.Eq(got, []any{Map{"n": "a", "p": arr}}), "arrays-only")
+	case 3:
+		verif.Assert(err == nil && verif.Eq(got, []any{Map{"n": x, "p": arr}}), "both-options")
+	}
+	verif.Reach("end")
+}
